@@ -68,7 +68,23 @@ func TestProp_DisplayedSummary(t *testing.T) {
 		setup := rapid.SampledFrom([]string{"ok", "ok", "ok", "cleanup-fails", "cleanup-fails", "cleanup-panics", "setup-fails"}).Draw(rt, "setup")
 		maxFailures := rapid.SampledFrom([]uint64{0, 0, 3, 100}).Draw(rt, "maxFailures")
 		form := rapid.SampledFrom([]string{"text", "structured"}).Draw(rt, "form")
+		// straggler: iteration 1 outlives the completion timeout (60 ms) and only finishes - failing -
+		// while the scenario is torn down; the summary is rendered from the totals the verdict was
+		// taken from, like the result the run returns
+		straggler := n >= 2 && setup != "setup-fails" && rapid.IntRange(0, 3).Draw(rt, "straggler") == 0
+		release := make(chan struct{})
+		booked := make(chan struct{})
 		scenario := func(st *f1testing.T) f1testing.RunFn {
+			if straggler {
+				st.Cleanup(func() {
+					close(release)
+					select {
+					case <-booked:
+					case <-time.After(2 * time.Second):
+					}
+					time.Sleep(20 * time.Millisecond) // let the worker book the iteration
+				})
+			}
 			switch setup {
 			case "cleanup-fails":
 				st.Cleanup(func() { st.FailNow() })
@@ -79,6 +95,12 @@ func TestProp_DisplayedSummary(t *testing.T) {
 			}
 			return func(it *f1testing.T) {
 				id, _ := strconv.Atoi(it.Iteration)
+				if straggler && id == 1 {
+					<-release
+					it.Fail()
+					close(booked)
+					return
+				}
 				if failEvery > 0 && id%failEvery == 0 {
 					it.Fail()
 				}
@@ -102,6 +124,11 @@ func TestProp_DisplayedSummary(t *testing.T) {
 		spec.Opts.MaxIterations = uint64(n)
 		spec.Opts.MaxFailures = maxFailures
 		spec.Opts.IgnoreDropped = true
+		if straggler {
+			spec.WaitTimeout = 60 * time.Millisecond
+			spec.Opts.Concurrency = max(2, spec.Opts.Concurrency) // the others reach the limit while iteration 1 is stuck
+			spec.Opts.MaxDuration = 250 * time.Millisecond        // ... and max-duration, then the completion timeout, end the wait for it
+		}
 		if n == 0 {
 			spec.Opts.MaxIterations = 0
 			spec.Opts.MaxDuration = 30 * time.Millisecond
@@ -114,8 +141,11 @@ func TestProp_DisplayedSummary(t *testing.T) {
 		}
 		failed, resErr := out.Result.Failed(), out.Result.Error()
 		snap := out.Result.Snapshot()
-		desc := fmt.Sprintf("users N=%d failEvery=%d setup=%s max-failures=%d form=%s", n, failEvery, setup, maxFailures, form)
+		desc := fmt.Sprintf("users N=%d failEvery=%d setup=%s max-failures=%d form=%s straggler=%v", n, failEvery, setup, maxFailures, form, straggler)
 		cls := []string{"form-" + form, "setup-" + setup}
+		if straggler {
+			cls = append(cls, "iteration-finishes-during-teardown")
+		}
 		if failed {
 			cls = append(cls, "verdict-failed")
 		}
